@@ -4,7 +4,7 @@
    ([LCS.expected_mounts], with [LCS.root_base] of the chain). *)
 From LC Require Import Lib.Bytes Lib.Lex Lib.Fields Lib.PathM Gen.Consts
   Model.MountInfo Model.FsTree Model.Kernel Model.Layers Cases.Verdict Cases.LC
-  Proofs.MonadP Proofs.MntSimP Proofs.MntWpP Proofs.MntTraceP.
+  Proofs.MntSimP Proofs.MntWpP Proofs.MntTraceP.
 Import LCS.
 Open Scope N_scope.
 
@@ -116,7 +116,7 @@ Proof.
 Qed.
 
 Definition item_em (it : item) : emount :=
-  MkEM (it_tgt it) (it_src it) (it_ty it) (negb (it_refresh it)).
+  MkEM (it_tgt it) (it_src it) (it_ty it) (negb (it_imp it)).
 
 Lemma imports_expected (adj : nmount -> option bytes) (bp : bytes) (l : list nmount) :
   match map_opt (fun nm => match adj nm with
